@@ -45,8 +45,9 @@ def run(ctx):
     binary = build.result()
     vlib.go_run(ctx, binary, "TestVerifConnState", infile, trace, timeout=400)
     lines = [l for l in vlib.read_ndjson(trace) if l.get("ev") == "upd"]
-    if len(lines) != steps:
-        raise vlib.NoVerdict("driver recorded %d of %d updates" % (len(lines), steps))
+    # every behaviour ends with the real Close (recorded as one more update)
+    if len(lines) != steps + len(beh):
+        raise vlib.NoVerdict("driver recorded %d of %d updates" % (len(lines), steps + len(beh)))
 
     # 3b. real connected pairs (weak, order-insensitive predicates); one TLC run validates both files
     npairs = 2 if quick else 40
@@ -70,7 +71,13 @@ def run(ctx):
               for a, b in [({k: bh["steps"][0][k] for k in ("closed", "ice", "dtls")},
                             {k: bh["steps"][1][k] for k in ("closed", "ice", "dtls")})]}
     model = {(b["id"], k): a for b in beh for k, a in enumerate(b["steps"])}
-    drift = sum(1 for l in lines
+    closes = [l for l in lines if l["ice"] == "by-close"]      # the real Close that ends every behaviour
+    ctx.cov["real_closes_recorded"] = len(closes)
+    ctx.cov["real_closes_with_racing_update"] = sum(1 for l in closes if "racing-update=true" in l["sig"])
+    lines_m = [l for l in lines if l["ice"] != "by-close"]
+    inputs = {(l["closed"], l["ice"], l["dtls"]) for l in lines_m}
+    edges = {(l["before"], l["closed"], l["ice"], l["dtls"]) for l in lines_m}
+    drift = sum(1 for l in lines_m
                 if model[(l["t"], l["k"])].get("exp") != l["after"] or model[(l["t"], l["k"])].get("notes") != l["notes"])
     ctx.cov["evaluations"] = len(lines) + len(plines)
     ctx.cov["traces_validated_against_impl"] = len(beh) + npairs
